@@ -31,6 +31,7 @@ func (s swScheme) unit() float64 {
 	}
 	return 2
 }
+
 type swCase struct {
 	S1  []int    `json:"s1"`
 	S2  []int    `json:"s2"`
